@@ -210,6 +210,26 @@ fn check_reopen_beside_strings(case: (u8, u8, u8)) -> Check {
     let (from, to) = pairs[case.1 as usize % pairs.len()];
     let st = std::time::UNIX_EPOCH + std::time::Duration::new(987_654_321, 98_765_400);
     let mut pkg = Package::create(PackageType::Installer, Cursor::new(Vec::new())).map_err(|e| Fail::new(format!("{P} create-failed"), e.to_string()))?;
+    // a table-side edit made before the summary is first touched in a save
+    // epoch (page-pair byte / 4: 0 none, 1 a new table, 2 a database
+    // code-page switch, 3 a new table with a row)
+    let mut edits = 0;
+    let mut table_edit = |pkg: &mut Package<Cursor<Vec<u8>>>| -> std::io::Result<()> {
+        edits += 1;
+        match case.1 / 4 % 4 {
+            0 => Ok(()),
+            1 => pkg.create_table(format!("T{edits}"), vec![msi::Column::build("k").primary_key().int16()]),
+            2 => {
+                pkg.set_database_codepage(if edits % 2 == 1 { CodePage::Windows1252 } else { CodePage::Utf8 });
+                Ok(())
+            }
+            _ => {
+                pkg.create_table(format!("T{edits}"), vec![msi::Column::build("k").primary_key().int16(), msi::Column::build("s").nullable().string(0)])?;
+                pkg.insert_rows(msi::Insert::into(format!("T{edits}")).row(vec![msi::Value::Int(1), msi::Value::from("text")]))
+            }
+        }
+    };
+    table_edit(&mut pkg).map_err(|e| Fail::new(format!("{P} edit-failed"), e.to_string()))?;
     pkg.summary_info_mut().set_codepage(from);
     if case.2 % 2 == 0 {
         pkg.summary_info_mut().set_creation_time(st);
@@ -234,6 +254,10 @@ fn check_reopen_beside_strings(case: (u8, u8, u8)) -> Check {
     if case.2 % 4 >= 2 {
         // the strings are saved once under the first page
         pkg.flush().map_err(|e| Fail::new(format!("{P} save-failed"), e.to_string()))?;
+        // second epoch: the table-side edit comes first again, and the time
+        // is set anew (to another value) after it
+        table_edit(&mut pkg).map_err(|e| Fail::new(format!("{P} edit-failed"), e.to_string()))?;
+        pkg.summary_info_mut().set_creation_time(st + std::time::Duration::new(86_400, 700));
     }
     pkg.summary_info_mut().set_codepage(to);
     let before = pkg.summary_info().creation_time().map(T::of_system);
@@ -315,7 +339,7 @@ fn time_strategy() -> impl Strategy<Value = T> {
 pub fn run(ctx: &Ctx) -> Report {
     let mut rep = Report::new(
         "exploration",
-        "system times as signed (secs, nanos) offsets from the Unix epoch: every tick boundary +-3 ticks x sub-tick nanoseconds 0..199 around 1601-01-01, 1970-01-01 and the 64-bit tick maximum (enumerated), platform extremes, uniform / log-uniform / ordinary generated times, generated pairs for monotonicity, a sample through save and reopen, alone, behind comments of every length that moves it across a 4, 8 or 16 KiB boundary of the stream, and beside string properties (title, subject, author, comments, creating application; non-ASCII text and text with U+0000 at the start, inside and at the end) under summary code-page switches. Non-trivial = a time that is not on a tick boundary or lies within 1 s of a range end; distinct by the time itself.",
+        "system times as signed (secs, nanos) offsets from the Unix epoch: every tick boundary +-3 ticks x sub-tick nanoseconds 0..199 around 1601-01-01, 1970-01-01 and the 64-bit tick maximum (enumerated), platform extremes, uniform / log-uniform / ordinary generated times, generated pairs for monotonicity, a sample through save and reopen, alone, behind comments of every length that moves it across a 4, 8 or 16 KiB boundary of the stream, and beside string properties (title, subject, author, comments, creating application; non-ASCII text and text with U+0000 at the start, inside and at the end) under summary code-page switches, with and without a table-side edit (new table, database code-page switch, new table with a row) made before the summary is first touched in each save epoch. Non-trivial = a time that is not on a tick boundary or lies within 1 s of a range end; distinct by the time itself.",
     );
     let mut st = Stats::new();
 
@@ -433,7 +457,7 @@ pub fn run(ctx: &Ctx) -> Report {
     // 6. beside strings whose encoded length changes with the code page
     let mut beside: Vec<(u8, u8, u8)> = Vec::new();
     for a in 0..16u8 {
-        for b in 0..4u8 {
+        for b in 0..16u8 {
             for c in 0..16u8 {
                 beside.push((a, b, c));
             }
